@@ -186,9 +186,10 @@ pub fn run_ref(s: &Script, c: &Compiled) -> RefOut {
             }
             let n = grows[gi];
             gi += 1;
-            merged.push(CallRec { name: GROW.to_string(), e_before: 0, charges: vec![MEMORY_COST_FACTOR * n], trapped: false, oob: false, max_len: n, copy_charge: None });
+            let cost = if brk("grow_u32") { (n as u32).wrapping_mul(MEMORY_COST_FACTOR as u32) as u64 } else { MEMORY_COST_FACTOR * n };
+            merged.push(CallRec { name: GROW.to_string(), e_before: 0, charges: vec![cost], trapped: false, oob: false, max_len: n, copy_charge: None });
             pending.push((merged.len() - 1, g_acc));
-            g_acc += MEMORY_COST_FACTOR * n;
+            g_acc += cost;
         } else {
             if ri >= recs.len() {
                 stopped = true;
